@@ -80,6 +80,30 @@ def c15(tier):
     rep = common.Reporter("C15", tier)
     sd = common.seed()
     scs = real_checks.explore(tier, sd, per_year=(40 if tier == "quick" else 600), replays=False)
+    # returns that ALMOST balance: the withholding of a solved return is moved so that it underpays / overpays by a few cents, or
+    # comes out exactly even (rules like "you need not pay less than a dollar" live at this edge)
+    near = []
+    per_year_near = {}
+    for sc in scs:
+        r = sc["res"]
+        if r["abort"] or not r.get("solved") or "w-2:0.box_2" not in sc["given"]:
+            continue
+        if per_year_near.get(sc["year"], 0) >= (2 if tier == "quick" else 25):
+            continue
+        try:
+            tax, paid, w = float(r["values"]["1040.24"]), float(r["values"]["1040.33"]), float(sc["given"]["w-2:0.box_2"] or 0)
+        except (KeyError, ValueError):
+            continue
+        per_year_near[sc["year"]] = per_year_near.get(sc["year"], 0) + 1
+        for off in (-0.40, -0.99, 0.0, 0.40):
+            w2 = round(w + (tax - paid) + off, 2)
+            if w2 < 0:
+                continue
+            g2 = dict(sc["given"])
+            g2["w-2:0.box_2"] = "%.2f" % w2
+            res2, ans2 = _resolve(sc["year"], sc["request"], g2, "near-%s-%s" % (sc["sid"], off))
+            near.append({"year": sc["year"], "request": sc["request"], "given": dict(ans2.given), "res": res2, "sid": "%s/near%+.2f" % (sc["sid"], off)})
+    scs = list(scs) + near
     sols, byid = [], {}
     for k, sc in enumerate(scs):
         r = sc["res"]
@@ -113,7 +137,7 @@ def c15(tier):
     cov = {"evaluations": len(scs), "distinct_nontrivial": len(sols),
            "rule": "scenario explorer returns (seeded profiles x 3 years, with/without NC); non-trivial = the return solved, so the balance formulas apply",
            "samples": [{"year": byid[1]["year"], "request": byid[1]["request"], "lines": {k: byid[1]["res"]["values"][k] for k in list(byid[1]["res"]["values"])[:12]}}] if sols else [{"none": True}],
-           "solved_returns_judged": len(sols), "nc_returns_judged": sum(1 for s in sols if "nc_d-400.19" in s["S"]),
+           "solved_returns_judged": len(sols), "nearly_balanced_variants": len(near), "nc_returns_judged": sum(1 for s in sols if "nc_d-400.19" in s["S"]),
            "by_year": {str(y): sum(1 for s in sols if s["year"] == y) for y in scenarios.YEARS},
            "states": (res.distinct if res else 0), "explanation": "TLC evaluates Balance.tla (balance equations, exclusivity, sign constraints) on every solved explored return"}
     return rep, "exploration", cov, ["amounts are explored below $10M so that cents fit TLC's 32-bit integers", "non-negative line list is a reviewed transcription (Balance.tla NonNegLines/NonNegForms)"]
@@ -554,7 +578,7 @@ def c09(tier):
             for rep_k in range(2 if tier == "quick" else 8):
                 rng = random.Random("lim-%d-%s-%d-%d" % (year, kind, rep_k, sd))
                 # a plain return otherwise (the first repetition), so that nothing else keeps it from solving
-                if rep_k == 0:
+                if rep_k <= 1:
                     p = scenarios.Profile(rng, year=year, nc=False, dependents=0, itemize=False, sched1_adjust=False, wage_scale=120000, ira=False,
                                           qualified_div=False, foreign_tax=False, hsa_you=False, hsa_spouse=False, f8606=False, div_heavy=False,
                                           dup_w2=False, plain_payers=True)
@@ -564,10 +588,11 @@ def c09(tier):
                 ov = {}
                 if kind == "payers-int":
                     p.n["1099-int"] = 15
-                    ov = {"1099-int:%d.box_1" % n: "150.00" for n in range(15)}
+                    # 15 payers: comfortably above the $1,500 that requires Schedule B, or only just (the 14 rows that fit stay below it)
+                    ov = {"1099-int:%d.box_1" % n: ("150.00" if rep_k != 1 else "101.00") for n in range(15)}
                 elif kind == "payers-div":
                     p.n["1099-div"] = 15
-                    ov = {"1099-div:%d.box_1a" % n: "150.00" for n in range(15)}
+                    ov = {"1099-div:%d.box_1a" % n: ("150.00" if rep_k != 1 else "101.00") for n in range(15)}
                 elif kind == "foreign":
                     p.n["1099-int"] = max(1, p.n["1099-int"])
                     ov = {"1099-int:0.box_6": "%.2f" % (601.0 + rep_k)}
@@ -722,6 +747,8 @@ def c02(tier):
                             skipped += 1
                         continue
                 need = [a for a in args if (a not in S and not (op == "mull" and a == args[-1]))]
+                if op == "rrc6":
+                    need = []           # the equation itself treats a question that was not reached as answered no
                 if op == "mull" and args[-1] not in R:
                     need.append(args[-1])
                 cond = e.get("cond", "")
